@@ -520,7 +520,10 @@ func (c *client) receive(r io.Reader) (err error) {
 		return ServerError{fmt.Errorf("got a response with an unexpected call ID: %d", callID)}
 	}
 	if err := c.inFlightDown(); err != nil {
-		return ServerError{err}
+		// rpc is no longer in the sent table, so it has to be completed here
+		err = ServerError{err}
+		returnResult(rpc, nil, err)
+		return err
 	}
 
 	select {
